@@ -10,6 +10,7 @@ import (
 	"fmt"
 	"math"
 	"regexp"
+	"sort"
 	"strings"
 
 	geom "github.com/twpayne/go-geom"
@@ -20,11 +21,13 @@ import (
 	"github.com/twpayne/go-geom/encoding/wkb"
 	"github.com/twpayne/go-geom/encoding/wkbcommon"
 	"github.com/twpayne/go-geom/encoding/wkt"
+	"github.com/twpayne/go-geom/sorting"
 	"github.com/twpayne/go-geom/transform"
 	"github.com/twpayne/go-geom/xy"
 	"github.com/twpayne/go-geom/xy/lineintersector"
 	"github.com/twpayne/go-geom/xyz"
 
+	"verif/sim/core"
 	"verif/sim/mgeom"
 	"verif/sim/refwkb"
 	"verif/sim/simio"
@@ -46,6 +49,8 @@ type item struct {
 	gjOpts  []geojson.EncodeGeometryOption
 	wktEnc  *wkt.Encoder
 	wkbOpts []wkbcommon.WKBOption
+	// a long-lived document object (geojson) that several callers marshal
+	fc *geojson.FeatureCollection
 }
 
 type fn struct {
@@ -382,6 +387,39 @@ func init() {
 		p, q, r := a[0].c, a[1].c, a[2].c
 		return []any{xy.Angle(p, q), xy.AngleFromOrigin(p), xy.AngleBetween(p, q, r), xy.AngleBetweenOriented(p, q, r), xy.InteriorAngle(p, q, r), xy.IsAcute(p, q, r), xy.IsObtuse(p, q, r), int(xy.OrientationIndex(p, q, r))}
 	})
+	reg("xy.AngleScalars", []string{"c", "c"}, func(c *Call, a []*item) any {
+		x, y := a[0].c[0]+float64(c.X), a[1].c[1]
+		return []any{xy.Normalize(x), xy.NormalizePositive(x), xy.Diff(x, y), int(xy.AngleOrientation(x, y)), xy.Normalize(y * 7), xy.NormalizePositive(-y)}
+	})
+	reg("sorting.SortedCopies", []string{"f", "c"}, func(c *Call, a []*item) any {
+		// sorting works in place: every caller sorts a copy of its own; the
+		// shared array and the focal point are only read
+		c1 := append([]float64(nil), a[0].f...)
+		c2 := append([]float64(nil), a[0].f...)
+		c3 := append([]float64(nil), a[0].f...)
+		sort.Sort(sorting.NewFlatCoordSorting2D(a[0].layout, c1))
+		sort.Sort(sorting.NewFlatCoordSorting(a[0].layout, c2, sorting.IsLess2D))
+		sort.Sort(xy.NewRadialSorting(a[0].layout, c3, a[1].c))
+		return []any{c1, c2, c3}
+	})
+	reg("Point.Ordinates", []string{"g:Point"}, func(c *Call, a []*item) any {
+		p := a[0].g.(*geom.Point)
+		out := []any{}
+		for _, f := range []func() float64{p.X, p.Y, p.Z, p.M} {
+			f := f
+			var v float64
+			if pn := core.Guard(func() { v = f() }); pn != "" {
+				out = append(out, "panic")
+			} else {
+				out = append(out, v)
+			}
+		}
+		cs := p.FlatCoords()
+		if len(cs) >= 2 {
+			out = append(out, geom.Coord(cs).X(), geom.Coord(cs).Y())
+		}
+		return out
+	})
 	reg("xy.Equal", []string{"f", "f"}, func(c *Call, a []*item) any {
 		if len(a[0].f) < 2 || len(a[1].f) < 2 {
 			return "short"
@@ -531,6 +569,28 @@ func init() {
 			}
 		}
 		return out
+	})
+	// ---- long-lived document objects marshalled by several callers ------------------
+	reg("geojson.FeatureCollection.MarshalJSON/shared-object", []string{"fc"}, func(c *Call, a []*item) any {
+		if c.I&1 != 0 {
+			b, err := a[0].fc.MarshalJSON()
+			return []any{string(b), err}
+		}
+		b, err := json.Marshal(a[0].fc)
+		return []any{string(b), err}
+	})
+	reg("geojson.Feature.MarshalJSON/shared-object", []string{"fc"}, func(c *Call, a []*item) any {
+		fs := a[0].fc.Features
+		if len(fs) == 0 {
+			return "no feature"
+		}
+		f := fs[c.I%len(fs)]
+		if c.I&8 != 0 {
+			b, err := json.Marshal(f)
+			return []any{string(b), err}
+		}
+		b, err := f.MarshalJSON()
+		return []any{string(b), err}
 	})
 	// ---- option values shared between callers -------------------------------------
 	reg("geojson.Marshal/shared-options", []string{"g", "o:gj"}, func(c *Call, a []*item) any {
